@@ -102,17 +102,31 @@ def run_case(c, backends):
     recs, calls = [], 0
     src_sig = sig_of_sys(c["src"])
     req = c["req"]
-    for backend in backends:
-        for flavor in ("generic", "momentum"):
-            if c["kind"] == "to_system" and c["spelling"] == "momentum" and False:
-                pass
+    has_kw = c["lonkw"] != "none" or c["tmpkw"] != "none"
+    # keyword values: a generic non-zero number, exactly zero (a massless particle / z = 0 must still be
+    # imputed in the coordinate type the keyword names), and an array for array backends
+    kwmodes = ["value", "zero", "array"] if has_kw else ["value"]
+    for backend, flavor, kwmode in [(b, f, k) for b in backends for f in ("generic", "momentum") for k in kwmodes]:
+        if True:
+            if kwmode == "array" and backend not in ("np", "akarr"):
+                continue
             v = build(backend, flavor, src_sig)
             number = mplib.M if backend == "mp" else float
+            KWV = dict(KWVAL) if kwmode != "zero" else {"lon": 0.0, "tmp": 0.0}
+
+            def kwvalue(group):
+                if kwmode == "array":
+                    import awkward as ak_
+
+                    arr = numpy.array([KWV[group], KWV[group] + 0.5])
+                    return arr if backend == "np" else ak_.Array(arr)
+                return number(KWV[group])
+
             kw = {}
             if c["lonkw"] != "none":
-                kw[c["lonkw"]] = number(KWVAL["lon"])
+                kw[c["lonkw"]] = kwvalue("lon")
             if c["tmpkw"] != "none":
-                kw[c["tmpkw"]] = number(KWVAL["tmp"])
+                kw[c["tmpkw"]] = kwvalue("tmp")
             if c["lonkw2"] != "none":
                 kw[c["lonkw2"]] = number(KWVAL["lon"] + 1)
             if c["tmpkw2"] != "none":
@@ -125,7 +139,7 @@ def run_case(c, backends):
                 name = f"to_{c['n']}D"
             else:
                 name = "like"
-            base = {"op": name, "sig": [src_sig, None], "backend": backend, "flavor": flavor, "tag": "conv", "kw": sorted(kw), "case": c}
+            base = {"op": name, "sig": [src_sig, None], "backend": backend, "flavor": flavor, "tag": "conv", "kw": sorted(kw), "kwmode": kwmode, "case": c}
             calls += 1
             try:
                 with warnings.catch_warnings(), numpy.errstate(all="ignore"):
@@ -167,9 +181,11 @@ def run_case(c, backends):
                         recs.append(dict(base, kind="kept-coordinate-changed", field=fname, got=repr(as_list(col))[:80],
                                          want=repr(as_list(sfields[status[1]]))[:80]))
                 elif status[0] == "kw":
-                    val = KWVAL["lon"] if status[1] in ("z", "pz", "theta", "eta") else KWVAL["tmp"]
-                    if not all(x == val for x in as_list(col)):
-                        recs.append(dict(base, kind="imputed-value-wrong", field=fname, got=repr(as_list(col))[:80], want=val))
+                    val = KWV["lon"] if status[1] in ("z", "pz", "theta", "eta") else KWV["tmp"]
+                    want_vals = [val, val + 0.5] if kwmode == "array" else None
+                    got_vals = as_list(col)
+                    if (want_vals is not None and got_vals != want_vals) or (want_vals is None and not all(x == val for x in got_vals)):
+                        recs.append(dict(base, kind="imputed-value-wrong", field=fname, got=repr(got_vals)[:80], want=want_vals or val))
                 elif status[0] == "zero":
                     if not all(x == 0 for x in as_list(col)):
                         recs.append(dict(base, kind="imputed-zero-wrong", field=fname, got=repr(as_list(col))[:80]))
